@@ -32,3 +32,6 @@ def run(rep: Report, repo: Repo, tier: str) -> None:
         pathterms.rule_page_path(rep, repo, "C14-R7")
     with rep.isolated():
         fsrules.rule_pages_not_skipped(rep, repo, "C14-R8")
+    # a directory listed by its parent is not skipped afterwards: no `continue` in the walk outside the auto-exclusion block
+    with rep.isolated():
+        fsrules.rule_recursion_switch(rep, repo, "C14-R9")
